@@ -27,12 +27,14 @@
 (*                    the leading rows the source marks as header rows     *)
 (*   Merge  = "skip"  positions covered by a merged cell are skipped and   *)
 (*                    the row is padded at its end                         *)
+(*   Sep    = "once"  consecutive tables are written without a blank line  *)
+(*                    between them                                         *)
 (***************************************************************************)
 EXTENDS DocModel, SequencesExt
 
 CONSTANTS Cases,      \* descriptors of the documents explored (see MarkdownMC)
           Expand(_),  \* descriptor -> [els, off, mx, meta]
-          Esc, Header, Merge
+          Esc, Header, Merge, Sep
 
 \* ------------------------------------------------------------- the writer
 Blank == [t |-> "blank"]
@@ -42,12 +44,12 @@ CellOut(t, r, c) ==
     LET kd == t.kind[r][c] IN
     IF Covered(t, r, c) THEN (IF Merge = "skip" THEN <<>> ELSE <<[src |-> "", words |-> <<>>]>>)
     ELSE CASE kd = "pipe" /\ Esc = "raw" ->
-                   <<[src |-> "a" \o Tag(r, c), words |-> <<"a" \o Tag(r, c)>>],
-                     [src |-> "b" \o Tag(r, c), words |-> <<"b" \o Tag(r, c)>>]>>
-           [] kd = "pipe" -> <<[src |-> "a" \o Tag(r, c) \o "\\|" \o "b" \o Tag(r, c), words |-> Words(kd, r, c)]>>
-           [] kd = "nl"   -> <<[src |-> "x" \o Tag(r, c) \o "<br>" \o "y" \o Tag(r, c), words |-> Words(kd, r, c)]>>
-           [] kd = "padded" -> <<[src |-> "q" \o Tag(r, c), words |-> Words(kd, r, c)]>>
-           [] OTHER       -> <<[src |-> Raw(kd, r, c), words |-> Words(kd, r, c)]>>
+                   <<[src |-> "a" \o Tag(r + t.off, c), words |-> <<"a" \o Tag(r + t.off, c)>>],
+                     [src |-> "b" \o Tag(r + t.off, c), words |-> <<"b" \o Tag(r + t.off, c)>>]>>
+           [] kd = "pipe" -> <<[src |-> "a" \o Tag(r + t.off, c) \o "\\|" \o "b" \o Tag(r + t.off, c), words |-> Words(kd, r + t.off, c)]>>
+           [] kd = "nl"   -> <<[src |-> "x" \o Tag(r + t.off, c) \o "<br>" \o "y" \o Tag(r + t.off, c), words |-> Words(kd, r + t.off, c)]>>
+           [] kd = "padded" -> <<[src |-> "q" \o Tag(r + t.off, c), words |-> Words(kd, r + t.off, c)]>>
+           [] OTHER       -> <<[src |-> Raw(kd, r + t.off, c), words |-> Words(kd, r + t.off, c)]>>
 
 RowCells(t, r) ==
     LET cells == Concat([c \in 1..t.nc |-> CellOut(t, r, c)])
@@ -76,7 +78,12 @@ FrontMatter(d) == IF d.meta THEN <<[t |-> "fm", s |-> "---"], [t |-> "fm", s |->
                             ELSE <<>>
 
 \* every element followed by a blank line
-DocLines(d) == FrontMatter(d) \o Concat([e \in 1..Len(d.els) |-> ElemLines(d.els[e], d) \o <<Blank>>])
+\* every element is followed by a blank line: Markdown blocks are separated (two pipe tables
+\* with no blank line between them are ONE table for a GFM parser).  Sep = "once" is the
+\* implementation-shaped writer that sets a run of tables off by a single blank line before it.
+AfterElem(d, e) == IF Sep = "once" /\ e < Len(d.els) /\ d.els[e].t = "table" /\ d.els[e + 1].t = "table"
+                   THEN <<>> ELSE <<Blank>>
+DocLines(d) == FrontMatter(d) \o Concat([e \in 1..Len(d.els) |-> ElemLines(d.els[e], d) \o AfterElem(d, e)])
 
 \* ------------------------------------------------------------- the reader
 \* (GFM 4.10 tables, CommonMark 4.2 ATX headings, 5.2/5.3 list items)
